@@ -49,8 +49,37 @@ func verifOwasmExecute(vm owasm.Vm, code []byte, gasLimit uint64, env owasm.EnvI
 	return owasm.RunOutput{GasUsed: p.GasUsed}, nil
 }
 
+// prepare-phase behaviour: the script asks for external data in the planned order, then fails or not
+type verifPrepAsk struct {
+	Eid, Did int64
+	Data     []byte
+}
+
+type verifPrepPlan struct {
+	Asks    []verifPrepAsk
+	Err     bool
+	GasUsed uint64
+}
+
+var verifPrepPlanV *verifPrepPlan
+var verifPrepCalls int
+var verifPrepGasLimit uint64
+
 func verifOwasmPrepare(vm owasm.Vm, code []byte, gasLimit uint64, env owasm.EnvInterface) (owasm.RunOutput, error) {
-	panic("verif: owasm Prepare is not planned in this harness")
+	if verifPrepPlanV == nil {
+		panic("verif: owasm Prepare is not planned in this harness")
+	}
+	verifPrepCalls++
+	verifPrepGasLimit = gasLimit
+	for _, a := range verifPrepPlanV.Asks {
+		if err := env.AskExternalData(a.Eid, a.Did, a.Data); err != nil {
+			return owasm.RunOutput{}, err
+		}
+	}
+	if verifPrepPlanV.Err {
+		return owasm.RunOutput{}, errors.New("owasm: runtime error")
+	}
+	return owasm.RunOutput{GasUsed: verifPrepPlanV.GasUsed}, nil
 }
 
 // ---- bandtss neighbour: ok / error / panic, after writing a marker into the (cache) context
@@ -110,5 +139,6 @@ func verifSetup() verifEnv {
 		nil, nil, verifRollingSeed{}, bt, capabilitykeeper.ScopedKeeper{}, venv.OwasmVM(), venv.Addr(9).String(),
 	)
 	verifExecPlans, verifExecCalls = nil, 0
+	verifPrepPlanV, verifPrepCalls, verifPrepGasLimit = nil, 0, 0
 	return verifEnv{ctx: ctx, k: k, key: key, bandtss: bt, staking: staking}
 }
